@@ -315,9 +315,12 @@ NON_NOTIFYING = ("bc", "bc_add")
 OWN_ONLY = ("rho", "damping", "newmesh", "set_iter")  # operations on simulation 1 that leave a second simulation sharing its model / mesh untouched
 
 
-def group_level_tail(ops, i=0):
-    """True when, for simulation i, the last operation that could notify it is the group-level coordinate assignment"""
-    rest = [o for o in ops if o not in NON_NOTIFYING and not (i > 0 and o in OWN_ONLY)]
+def group_level_tail(ops, i=0, sim=""):
+    """True when, for simulation i, the last operation that could refresh what the group-level coordinate assignment left stale is that assignment itself.
+    Hyperelastic simulation: its cached element mass matrices are refreshed by MESH notifications only (a model-parameter change raises Need_Update but
+    keeps them), so a later `lmbda` change does not count."""
+    skip = NON_NOTIFYING + (("lmbda",) if sim == "hyper" else ())
+    rest = [o for o in ops if o not in skip and not (i > 0 and o in OWN_ONLY)]
     return bool(rest) and rest[-1] == "gcoord"
 
 
@@ -438,7 +441,7 @@ def job_seq(cfg):
         for (lab, g), (_, wnt) in zip(got, want):
             label = f"{key}{who}: {lab} equals that of a freshly built simulation"
             okey = f"{cfg['sim']} after {' -> '.join(cfg['ops'])}{who}: {lab}"
-            if group_level_tail(cfg["ops"], i):
+            if group_level_tail(cfg["ops"], i, cfg["sim"]):
                 # the sequence ends with a group-level coordinate assignment that nothing notifying follows: one key per observable,
                 # whatever precedes it (the known finding is the call site `_GroupElem.coord = ...`, not the particular history)
                 okey = f"{cfg['sim']} after a group-level coordinate assignment (_GroupElem.coord) not followed by a notifying operation: {lab}"
